@@ -67,6 +67,14 @@ pub fn run(ctx: &Ctx, rep: &mut Report) {
                         continue;
                     }
                 };
+                rep.sample(5, || {
+                    let mut o = J::obj();
+                    o.set("line", J::bytes(&line[..line.len().min(100)]));
+                    o.set("shape", J::s(shape));
+                    o.set("reference_type", J::i(want as u64));
+                    o.set("observed_type", J::i(s.message_type as u64));
+                    o
+                });
                 rep.class(format!("{}|{}", ch as char, shape));
                 let mut ok = s.message_type == want;
                 // cross-check with the decoded message's own type (unfragmented sentences)
